@@ -273,6 +273,43 @@ def run(ctx):
             if not (k1 == k2 == k3):
                 ctx.report('property', f'key of a dataset {k1[:12]}.., of its copy {k2[:12]}.., of the dataset again {k3[:12]}..: '
                            f'equal geometry, different keys', dict(case, kind='object_state', edit='copy'))
+            # (2b) the key is a function of the dataset as it is now: the same Dataset object asked again after one of its
+            # geometry variables was edited in place (a coordinate corrected, an attribute added) answers for the new content, and
+            # for the old content again once the edit is undone
+            work = ds.copy(deep=True)
+            gname = next((x for x in names if work[x].size >= 1 and work[x].dtype.kind == 'f' and numpy.isfinite(work[x].values).any()), None)
+            if gname is not None:
+                icase = dict(case, kind='in_place_edit', variable=str(gname))
+                ctx.case((label, from_file, 'in place'), True)
+                ctx.count('edit:in place on the same object')
+                k0 = attempt(key_of, work)
+                vals = work[gname].values
+                pos = int(numpy.flatnonzero(numpy.isfinite(vals.reshape(-1)))[0])
+                old_v = vals.reshape(-1)[pos]
+                try:
+                    work[gname].values.reshape(-1)[pos] = old_v + 0.5
+                except ValueError:
+                    pass            # read-only buffer
+                if work[gname].values.reshape(-1)[pos] == old_v:
+                    pass            # the values are not writable in place: nothing to ask
+                else:
+                    k1 = attempt(key_of, work)
+                    work[gname].values.reshape(-1)[pos] = old_v
+                    k2 = attempt(key_of, work)
+                    work[gname].attrs['verif_note'] = 'checked'
+                    k3 = attempt(key_of, work)
+                    del work[gname].attrs['verif_note']
+                    k4 = attempt(key_of, work)
+                    if 'ok' not in (k0[0],) or any(k[0] != 'ok' for k in (k1, k2, k3, k4)):
+                        ctx.report('property', f'make_cache_key failed around an in-place edit: {[k0, k1, k2, k3, k4]}', icase)
+                    elif k1[1] == k0[1]:
+                        ctx.report('property', f'one value of {gname} was changed in place on the same Dataset object and the key stayed the same', icase)
+                    elif k2[1] != k0[1]:
+                        ctx.report('property', f'the value of {gname} was put back and the key differs from the original key', icase)
+                    elif k3[1] == k0[1]:
+                        ctx.report('property', f'an attribute was added to {gname} in place and the key stayed the same', icase)
+                    elif k4[1] != k0[1]:
+                        ctx.report('property', f'the attribute of {gname} was removed again and the key differs from the original key', icase)
             # (3) single geometry edits
             gname = str(names[-1] if d.family != 'ugrid' else 'Mesh2_node_x')
             edits = []
